@@ -56,6 +56,15 @@ CHECKS = {
     "C16": ("E1", E1,
             "substr: all strings of length 0..4 over {1,2,3,4-byte characters} x start x length over -10..10 plus 64-bit extremes (+ absent length) with the partition law; cat: all operand lists of length 0..3 over 23 values (4 over 8) with the split law at every split point; run with overflow checks on and off.",
             "5/C16", "strings longer than 4 (5 thorough) characters are covered by a few probes only"),
+    "C17": ("E2+E3", "explicit-state model checking of the real code: (E2) DFS over call histories whose states are fork() snapshots of the real process, every call compared with its isolated outcome; (E3) stateless preemption-bounded DFS over all interleavings of real threads calling apply() on shared inputs, switched only at feature-guarded hook points (iterative context bounding, bounds 0..2, 3 thorough)",
+            "Purity is a universal claim over histories and schedules. E2 closes all call sequences up to depth 2 (3 thorough) over a 72-call alphabet starting from every reached state - a state being a process snapshot, so any hidden memory whatsoever is carried along; E3 closes all schedules of 10 (11) collision-prone 2-3 thread harnesses within the preemption bound. Every execution is compared with the isolated outcome (value, Err-ness, log lines, input integrity); replayed schedules must reproduce.",
+            "5/C17", "interleavings finer than a hook point are not explored (no unsynchronised shared state exists in safe Rust without unsafe/static; the free-running run is a proviso, not the deciding step); histories longer than 3 calls are not enumerated"),
+    "C18": ("E4", "exhaustive exploration of the real binary: full product rule text x data text x delivery form (argument / stdin / stdin with '-' / argument with junk on stdin) and all two-stage pipelines over the valid texts, every process run compared with the library in-process",
+            "The wrapper adds argument parsing, stdin handling, printing and the exit status; each of these is decided by running the real binary built from the working tree on every member of the stated product (45 rule texts x 24 data texts x 4 forms + deep nesting + ~3000 chains) and comparing stdout and exit status exactly with what the library does on the same texts.",
+            "5/C18", "texts outside the stated lists are not covered; option-like non-JSON texts (-h, --help) are options, not texts; OS-level faults on stdout are outside the quantifier"),
+    "C19": ("E4", "exhaustive exploration of the real Python package: full product (rule object x data object x entry point x combination of omitted / supplied optional arguments), every call compared with the library reached through the harness oracle",
+            "The wrapper adds JSON encoding/decoding, defaults for omitted arguments and the exception mapping; all of it is decided by calling the real package (extension built from the working tree) on every member of 62 rules x 26 data x 17 call forms (+ malformed texts and broken serializers) and comparing value (type-strictly) or exception type with the library's own result.",
+            "5/C19", "objects that json.dumps cannot encode are outside the property; CPython's json module is trusted"),
 }
 
 BUILDING = {
